@@ -451,7 +451,9 @@ func StartRealAuth(users map[string]string, pamUsers map[string]string) *RealAut
 	return r
 }
 
-func (r *RealAuth) Alive() bool { return r.cmd.ProcessState == nil && syscall.Kill(r.cmd.Process.Pid, 0) == nil }
+func (r *RealAuth) Alive() bool {
+	return r.cmd.ProcessState == nil && syscall.Kill(r.cmd.Process.Pid, 0) == nil
+}
 func (r *RealAuth) Log() string { return r.log.String() }
 func (r *RealAuth) Stop() {
 	r.cmd.Process.Kill()
